@@ -308,7 +308,7 @@ def gen_spelling(rng):
         if first_nonzero and s[0] == '0':
             s = rng.choice('123456789') + s[1:]
         return s
-    k = rng.choice(['int', 'dec', 'dec', 'decexp', 'decexp', 'bigexp', 'long', 'long', 'hex', 'hex', 'rational', 'digits', 'negzero', 'odd'])
+    k = rng.choice(['int', 'dec', 'dec', 'decexp', 'decexp', 'bigexp', 'long', 'long', 'hex', 'hex', 'rational', 'digits', 'negzero', 'poszero', 'odd'])
     if k == 'int':
         t = digs(rng.choice([1, 3, 17, 25]), True)
         return t, 'dec', t
@@ -340,6 +340,9 @@ def gen_spelling(rng):
     if k == 'negzero':
         t = rng.choice(['-0.0', '-0', '-0e5', '-0.000', '-(0.0)', "fp.hexfloat('-0x0.0p3')", '-0.0e-400', '-0e400'])
         return t, 'negzero', t
+    if k == 'poszero':
+        t = rng.choice(['-(-0.0)', '-(-0)', "-fp.hexfloat('-0x0p0')", '-(-(0.0))', '-(-0e3)', '0.0', "fp.hexfloat('0x0p0')"])
+        return t, 'poszero', t
     t = rng.choice(['1_000.5', '1E3', '1.5E-2', '5.', '.5', '5.e2', '0_1.2_5e0_2', '00.5', '0e0', '1e+05', '1e-07', '1e16', '123456789.123456789e-9'])
     return t, 'dec', t
 
@@ -359,6 +362,8 @@ def expected_of(kind, payload):
         return (Fraction(m * b ** ex) if ex >= 0 else Fraction(m, b ** (-ex))), False
     if kind == 'negzero':
         return Fraction(0), True
+    if kind == 'poszero':
+        return Fraction(0), 'pos'        # the negation of a negative-zero literal: the sign must be +
     raise ValueError(kind)
 
 
@@ -412,8 +417,10 @@ def check_spelling(expr, kind, payload, ci, want_override=None):
             okv = v == want or (label != 'REAL' and want != 0 and v == round_frac(want, p, rm))
         if not okv:
             problems.append('%s: return %s gave %s, the spelling denotes %s' % (label, expr, show(r), want))
-        elif want == 0 and negzero and not s:
+        elif want == 0 and negzero is True and not s:
             problems.append('%s: return %s lost the sign of zero' % (label, expr))
+        elif want == 0 and negzero == 'pos' and s:
+            problems.append('%s: return %s is negative zero, the expression denotes +0' % (label, expr))
     for fn in ('rounded', 'used'):
         try:
             r = g[fn]()
@@ -423,8 +430,10 @@ def check_spelling(expr, kind, payload, ci, want_override=None):
         exp_v = round_frac(want, p, rm)
         if v != exp_v:
             problems.append('%s(%s) under %s gave %s, expected the exact value rounded once = %s' % (fn, expr, cexpr, show(r), exp_v))
-        elif want == 0 and negzero and fn == 'rounded' and not s:
+        elif want == 0 and negzero is True and fn == 'rounded' and not s:
             problems.append('%s(%s) under %s lost the sign of zero' % (fn, expr, cexpr))
+        elif want == 0 and negzero == 'pos' and fn == 'rounded' and s:
+            problems.append('%s(%s) under %s is negative zero, the expression denotes +0' % (fn, expr, cexpr))
     return problems, want, negzero
 
 
@@ -441,13 +450,15 @@ def run_spelling(task):
             lit = sp[2:-1] if sp.startswith('-(') else sp.lstrip('-')
             isz = exact_decimal(lit)[1] == 0 and sp.startswith('-')
             todo.append((sp, 'negzero' if isz else 'dec', sp if not sp.startswith('-(') else '-' + lit, i % len(SP_CTX)))
+        for i, sp in enumerate(['-(-0.0)', '-(-0)', "-fp.hexfloat('-0x0p0')", '-(-(0.0))']):
+            todo.append((sp, 'poszero', sp, i % len(SP_CTX)))
     for _ in range(task['count']):
         todo.append(gen_spelling(rng) + (rng.randrange(len(SP_CTX)),))
     for expr, kind, payload, ci in todo:
         problems, want, negzero = check_spelling(expr, kind, payload, ci)
         n += 1
         wit['spelling-real'] += 1; wit['spelling-rounded'] += 1
-        if negzero:
+        if negzero is True:
             wit['spelling-negzero'] += 1
         if problems:
             cex.append({'case': {'task': {'kind': 'spelling'}, 'inputs': {'expr': expr, 'kind': kind, 'payload': payload, 'ctx': ci}, 'info': problems[0][:200]}})
